@@ -58,7 +58,10 @@ pub fn budget_for(scn: &Scenario, r: &Ref) -> u64 {
             crate::sched::Policy::Starve(_) => 1 + scn.starve_release / 8,
             _ => 1,
         };
-        base * (1 + threads / 4) * slow
+        // capped: a run that needs more than this under a slow-but-fair schedule yields no verdict (the own-steps
+        // criterion of the oracle decides whether an exhausted budget means anything), and a run that really does
+        // not terminate costs seconds instead of minutes
+        (base * (1 + threads / 4) * slow).min(400_000)
     } else {
         base
     }
